@@ -390,3 +390,462 @@ Proof.
   destruct (plan (Script h ao None) m c n) as [s| |]; destruct (plan (Script h' ao' None) m' c n) as [s'| |]; cbn [res_rel] in H; try contradiction; try assumption; try exact I.
   intro Hok. exact (tq_erased_equal_same_structure s s' H Hok).
 Qed.
+
+(* ---------- requests with several selectors ---------- *)
+Fixpoint script_variant (q q' : script) : Prop :=
+  match q, q' with
+  | Script h ao tl, Script h' ao' tl' =>
+    selector_variant h h' /\ ao = ao' /\
+    match tl, tl' with None, None => True | Some t, Some t' => script_variant t t' | _, _ => False end
+  end.
+
+Fixpoint ep_variant (t t' : ep) : Prop :=
+  match t, t' with
+  | EPSimple s p, EPSimple s' p' => p = p' /\ script_variant s s'
+  | EPComplex p f ops, EPComplex p' f' ops' =>
+      p = p' /\ f = f' /\
+      (fix go (l l' : list ep) : Prop :=
+         match l, l' with [], [] => True | x :: r, x' :: r' => ep_variant x x' /\ go r r' | _, _ => False end) ops ops'
+  | _, _ => False
+  end.
+Definition eps_variant : list ep -> list ep -> Prop :=
+  fix go (l l' : list ep) : Prop :=
+    match l, l' with [], [] => True | x :: r, x' :: r' => ep_variant x x' /\ go r r' | _, _ => False end.
+Lemma ep_variant_complex p f ops p' f' ops' :
+  ep_variant (EPComplex p f ops) (EPComplex p' f' ops') <-> (p = p' /\ f = f' /\ eps_variant ops ops').
+Proof. reflexivity. Qed.
+
+Lemma eps_app l l' r r' : eps_variant l l' -> eps_variant r r' -> eps_variant (l ++ r) (l' ++ r').
+Proof.
+  revert l'. induction l as [|x l IH]; intros [|x' l'] Hl Hr; cbn in Hl; try contradiction; [exact Hr|].
+  destruct Hl as [Hx Hl]. cbn [app]. split; [exact Hx|]. apply IH; assumption.
+Qed.
+Lemma eps_length l l' : eps_variant l l' -> List.length l = List.length l'.
+Proof. revert l'. induction l as [|x l IH]; intros [|x' l'] H; cbn in H; try contradiction; [reflexivity|]. destruct H as [_ H]. cbn [List.length]. f_equal. now apply IH. Qed.
+Lemma eps_nth l l' i : eps_variant l l' ->
+  match nth_error l i, nth_error l' i with Some x, Some y => ep_variant x y | None, None => True | _, _ => False end.
+Proof.
+  revert l' i. induction l as [|x l IH]; intros [|x' l'] i H; cbn in H; try contradiction.
+  - destruct i; exact I.
+  - destruct H as [Hx H]. destruct i; [exact Hx|]. cbn [nth_error]. apply IH. exact H.
+Qed.
+Lemma eps_upd (g g' : ep -> ep) : (forall x x', ep_variant x x' -> ep_variant (g x) (g' x')) ->
+  forall i l l', eps_variant l l' -> eps_variant (upd_nth g i l) (upd_nth g' i l').
+Proof.
+  intros Hg i. induction i as [|i IH]; intros [|x l] [|x' l'] H; cbn in H; try contradiction; try exact I; destruct H as [Hx H].
+  - cbn. split; [apply Hg; exact Hx|exact H].
+  - cbn. split; [exact Hx|]. apply IH. exact H.
+Qed.
+
+Lemma add_op_variant path : forall node node' t t', ep_variant node node' -> ep_variant t t' ->
+  ep_variant (add_op_at path node t) (add_op_at path node' t').
+Proof.
+  induction path as [|i r IH]; intros node node' t t' Hn Ht.
+  - destruct t as [s p|p f ops]; destruct t' as [s' p'|p' f' ops']; try contradiction; [exact Ht|].
+    cbn [add_op_at]. apply ep_variant_complex in Ht. destruct Ht as [Hp [Hf Ho]]. apply ep_variant_complex.
+    split; [exact Hp|]. split; [exact Hf|]. apply eps_app; [exact Ho|]. cbn. split; [exact Hn|exact I].
+  - destruct t as [s p|p f ops]; destruct t' as [s' p'|p' f' ops']; try contradiction; [exact Ht|].
+    cbn [add_op_at]. apply ep_variant_complex in Ht. destruct Ht as [Hp [Hf Ho]]. apply ep_variant_complex.
+    split; [exact Hp|]. split; [exact Hf|]. apply eps_upd; [|exact Ho]. intros x x' Hx. apply IH; assumption.
+Qed.
+
+Lemma node_at_variant path : forall t t', ep_variant t t' ->
+  match node_at path t, node_at path t' with Some x, Some y => ep_variant x y | None, None => True | _, _ => False end.
+Proof.
+  induction path as [|i r IH]; intros t t' Ht; [exact Ht|].
+  destruct t as [s p|p f ops]; destruct t' as [s' p'|p' f' ops']; try contradiction; [exact I|].
+  cbn [node_at]. apply ep_variant_complex in Ht. destruct Ht as [_ [_ Ho]].
+  pose proof (eps_nth ops ops' i Ho) as Hn.
+  destruct (nth_error ops i) as [x|]; destruct (nth_error ops' i) as [x'|]; try contradiction; [|exact I].
+  apply IH. exact Hn.
+Qed.
+
+Definition opt_ep_variant (r r' : option ep) : Prop :=
+  match r, r' with Some t, Some t' => ep_variant t t' | None, None => True | _, _ => False end.
+
+Definition addf (cur : option (list nat)) (node : ep) (r : option ep) : option ep :=
+  match cur with
+  | None => Some node
+  | Some p => match r with Some t => Some (add_op_at p node t) | None => None end
+  end.
+Definition lastf (cur : option (list nat)) (r : option ep) : option (list nat) :=
+  match cur with
+  | None => Some []
+  | Some p => match r with
+              | Some t => match node_at p t with
+                          | Some (EPComplex _ _ ((_ :: _) as ops)) => Some (p ++ [Nat.pred (List.length ops)])
+                          | _ => None
+                          end
+              | None => None
+              end
+  end.
+
+Lemma plan_complex_unfold root cnt cur h ao tl :
+  plan_complex root cnt cur (Script h ao tl) =
+  let sc := Script h ao tl in
+  match (match tl with None => AONone | Some _ => ao end) with
+  | AONone => Some (addf cur (EPSimple sc (prefix_of (cnt + 1))) root, (cnt + 1)%Z)
+  | AOAnd =>
+      let root1 := addf cur (EPComplex (prefix_of (cnt + 1)) AOAnd [EPSimple sc (prefix_of (cnt + 2))]) root in
+      match lastf cur root1 with
+      | Some p' => match tl with Some s' => plan_complex root1 (cnt + 2)%Z (Some p') s' | None => None end
+      | None => None
+      end
+  | AOOr =>
+      match addf cur (EPSimple sc (prefix_of (cnt + 1))) root with
+      | Some t => match tl with
+                  | Some s' => plan_complex (Some (EPComplex (prefix_of (cnt + 2)) AOOr [t])) (cnt + 2)%Z (Some []) s'
+                  | None => None
+                  end
+      | None => None
+      end
+  end.
+Proof. reflexivity. Qed.
+
+Lemma addf_variant cur node node' r r' : ep_variant node node' -> opt_ep_variant r r' -> opt_ep_variant (addf cur node r) (addf cur node' r').
+Proof.
+  intros Hn Hr. unfold addf. destruct cur as [p|]; [|exact Hn].
+  destruct r as [t|]; destruct r' as [t'|]; try contradiction; [|exact I]. cbn. apply add_op_variant; assumption.
+Qed.
+
+Lemma lastf_variant cur r r' : opt_ep_variant r r' -> lastf cur r = lastf cur r'.
+Proof.
+  intro Hr. unfold lastf. destruct cur as [p|]; [|reflexivity].
+  destruct r as [t|]; destruct r' as [t'|]; try contradiction; [|reflexivity].
+  pose proof (node_at_variant p t t' Hr) as Hn.
+  destruct (node_at p t) as [x|]; destruct (node_at p t') as [x'|]; try contradiction; [|reflexivity].
+  destruct x as [s q|q f ops]; destruct x' as [s' q'|q' f' ops']; try contradiction; [reflexivity|].
+  apply ep_variant_complex in Hn. destruct Hn as [_ [_ Ho]]. pose proof (eps_length _ _ Ho) as Hl.
+  destruct ops as [|o ops]; destruct ops' as [|o' ops']; try discriminate; [reflexivity|]. now rewrite Hl.
+Qed.
+
+Fixpoint plan_complex_variant (sc : script) : forall sc' root root' cnt cur,
+  script_variant sc sc' -> opt_ep_variant root root' ->
+  match plan_complex root cnt cur sc, plan_complex root' cnt cur sc' with
+  | Some (r, c), Some (r', c') => opt_ep_variant r r' /\ c = c'
+  | None, None => True
+  | _, _ => False
+  end.
+Proof.
+  destruct sc as [h ao tl]. intros [h' ao' tl'] root root' cnt cur Hv Hr.
+  assert (Hsc : script_variant (Script h ao tl) (Script h' ao' tl')) by exact Hv.
+  destruct Hv as [Hh [Hao Htl]]. subst ao'.
+  rewrite !plan_complex_unfold. cbv zeta.
+  assert (Hs : forall p, ep_variant (EPSimple (Script h ao tl) p) (EPSimple (Script h' ao tl') p)) by (intro p; split; [reflexivity|exact Hsc]).
+  destruct tl as [t|]; destruct tl' as [t'|]; try contradiction.
+  - destruct ao.
+    + split; [|reflexivity]. apply addf_variant; [apply Hs|exact Hr].
+    + assert (H1 : opt_ep_variant (addf cur (EPComplex (prefix_of (cnt + 1)) AOAnd [EPSimple (Script h AOAnd (Some t)) (prefix_of (cnt + 2))]) root)
+                                 (addf cur (EPComplex (prefix_of (cnt + 1)) AOAnd [EPSimple (Script h' AOAnd (Some t')) (prefix_of (cnt + 2))]) root')).
+      { apply addf_variant; [|exact Hr]. apply ep_variant_complex. split; [reflexivity|]. split; [reflexivity|]. cbn. split; [apply Hs|exact I]. }
+      rewrite (lastf_variant cur _ _ H1).
+      destruct (lastf cur _) as [p'|]; [|exact I].
+      apply plan_complex_variant; assumption.
+    + pose proof (addf_variant cur _ _ root root' (Hs (prefix_of (cnt + 1))) Hr) as H1.
+      destruct (addf cur (EPSimple (Script h AOOr (Some t)) (prefix_of (cnt + 1))) root) as [x|];
+      destruct (addf cur (EPSimple (Script h' AOOr (Some t')) (prefix_of (cnt + 1))) root') as [x'|]; try contradiction; [|exact I].
+      apply plan_complex_variant; [exact Htl|]. cbn [opt_ep_variant]. apply ep_variant_complex. split; [reflexivity|]. split; [reflexivity|]. cbn. split; [exact H1|exact I].
+  - split; [|reflexivity]. apply addf_variant; [apply Hs|exact Hr].
+Qed.
+
+Fixpoint all_have_attr_variant (s : script) : forall s', script_variant s s' -> all_have_attr s = all_have_attr s'.
+Proof.
+  destruct s as [h ao tl]. intros [h' ao' tl'] [Hh [_ Htl]]. cbn [all_have_attr].
+  destruct Hh as [Ha _]. pose proof (attr_some_iff h h' Ha) as Hn.
+  destruct (sel_attr h) as [e|]; destruct (sel_attr h') as [e'|].
+  - destruct tl as [t|]; destruct tl' as [t'|]; try contradiction; [|reflexivity]. apply all_have_attr_variant. exact Htl.
+  - destruct Hn as [_ Hn]. specialize (Hn eq_refl). discriminate.
+  - destruct Hn as [Hn _]. specialize (Hn eq_refl). discriminate.
+  - reflexivity.
+Qed.
+
+Lemma check_variant s s' : script_variant s s' -> check s = check s'.
+Proof.
+  destruct s as [h ao tl]. destruct s' as [h' ao' tl']. intros [Hh [_ Htl]].
+  destruct Hh as [Ha [_ Hg]]. pose proof (attr_some_iff h h' Ha) as Hn.
+  unfold check, agg_lacks_attr, tails_have_attr. rewrite Hg.
+  assert (Ht : match tl with None => true | Some s => all_have_attr s end = match tl' with None => true | Some s => all_have_attr s end).
+  { destruct tl as [t|]; destruct tl' as [t'|]; try contradiction; [|reflexivity]. apply all_have_attr_variant. exact Htl. }
+  rewrite Ht.
+  destruct (sel_attr h) as [e|]; destruct (sel_attr h') as [e'|].
+  - reflexivity.
+  - destruct Hn as [_ Hn]. specialize (Hn eq_refl). discriminate.
+  - destruct Hn as [Hn _]. specialize (Hn eq_refl). discriminate.
+  - destruct tl as [t|]; destruct tl' as [t'|]; try contradiction; reflexivity.
+Qed.
+
+Lemma simple_planner_variant c s s' p n : script_variant s s' -> res_rel ssame (simple_planner c s p n) (simple_planner c s' p n).
+Proof.
+  intro Hv. pose proof (check_variant s s' Hv) as Hc.
+  destruct s as [h ao tl]. destruct s' as [h' ao' tl']. destruct Hv as [[Ha [Ht Hg]] _].
+  pose proof (attr_some_iff h h' Ha) as Hn.
+  unfold simple_planner. rewrite Hc. destruct (check (Script h' ao' tl')); cbn [bind res_rel]; try reflexivity.
+  cbn [sc_head]. unfold agg_attr_of. rewrite Hg.
+  destruct (analyze h) as [cond terms]. destruct (analyze h') as [cond' terms']. cbn [fst snd] in Ha, Ht. subst cond'.
+  assert (Hm : res_rel ssame (match sel_attr h with Some _ => attr_condition c terms cond (match sel_agg h' with Some g => g_attr g | None => "" end) n | None => Ok (attrless c) end)
+                             (match sel_attr h' with Some _ => attr_condition c terms' cond (match sel_agg h' with Some g => g_attr g | None => "" end) n | None => Ok (attrless c) end)).
+  { destruct (sel_attr h) as [e|]; destruct (sel_attr h') as [e'|].
+    - apply E_attr_condition. exact Ht.
+    - destruct Hn as [_ Hn]. specialize (Hn eq_refl). discriminate.
+    - destruct Hn as [Hn _]. specialize (Hn eq_refl). discriminate.
+    - reflexivity. }
+  destruct (match sel_attr h with Some _ => _ | None => _ end) as [m| |];
+  destruct (match sel_attr h' with Some _ => _ | None => _ end) as [m'| |]; cbn [res_rel bind] in *; try contradiction; try assumption; try exact I.
+  pose proof (E_index_groupby p m m' Hm) as Hgb.
+  destruct (sel_agg h') as [ag|]; [apply E_aggregator; exact Hgb|exact Hgb].
+Qed.
+
+(* ---------- the tree of expression planners ---------- *)
+Definition sels_same (l l' : list (option string * select)) : Prop :=
+  Forall2 (fun x y => fst x = fst y /\ ssame (snd x) (snd y)) l l'.
+
+Lemma wrap_operand_same tagged i o o' : fst o = fst o' -> ssame (snd o) (snd o') -> ssame (wrap_operand tagged i o) (wrap_operand tagged i o').
+Proof.
+  intros Hf Hs. unfold ssame, tq_erase_sel, wrap_operand in *. rewrite !tFs_set_with. cbn [map fst snd].
+  rewrite !tFs_set_cols, !map_app, <- !tFs_cols, Hs, Hf. reflexivity.
+Qed.
+
+Lemma wrap_operands_same tagged l l' : sels_same l l' -> forall i,
+  map tq_erase_sel (wrap_operands tagged i l) = map tq_erase_sel (wrap_operands tagged i l').
+Proof.
+  induction 1 as [|o o' l l' [Hf Hs] _ IH]; intro i; [reflexivity|].
+  cbn [wrap_operands map]. rewrite IH. f_equal. exact (wrap_operand_same tagged i o o' Hf Hs).
+Qed.
+
+Lemma Forall2_len {A B} (R : A -> B -> Prop) l l' : Forall2 R l l' -> List.length l = List.length l'.
+Proof. induction 1; cbn [List.length]; congruence. Qed.
+
+Lemma complex_select_same fn p l l' : sels_same l l' -> ssame (complex_select fn p l) (complex_select fn p l').
+Proof.
+  intro H. pose proof (Forall2_len _ _ _ H) as Hl. unfold ssame, tq_erase_sel, complex_select.
+  cbn [tq_subst_sel tq_subst map map_opt]. rewrite Hl.
+  pose proof (wrap_operands_same (match fn with AOAnd => true | _ => false end) l l' H 0) as Hw. unfold tq_erase_sel in Hw. rewrite Hw. reflexivity.
+Qed.
+
+Definition ep_process_ops (c : ctx) (n : nat) : list ep -> result (list (option string * select)) :=
+  fix go (l : list ep) : result (list (option string * select)) :=
+    match l with
+    | [] => Ok []
+    | x :: r => do y <- ep_process c n x; do ys <- go r; Ok ((nested_prefix x, y) :: ys)
+    end.
+Lemma ep_process_unfold c n p fn ops :
+  ep_process c n (EPComplex p fn ops) =
+  (do sels <- ep_process_ops c n ops; match fn with AONone => Panic | _ => Ok (complex_select fn p sels) end).
+Proof. reflexivity. Qed.
+
+Lemma nested_prefix_variant x x' : ep_variant x x' -> nested_prefix x = nested_prefix x'.
+Proof. destruct x, x'; cbn; try contradiction; [reflexivity|]. intros [H _]. now rewrite H. Qed.
+
+Fixpoint ep_process_variant (c : ctx) (n : nat) (t : ep) : forall t', ep_variant t t' -> res_rel ssame (ep_process c n t) (ep_process c n t').
+Proof.
+  destruct t as [s p|p fn ops]; intros [s' p'|p' fn' ops'] Hv; try contradiction.
+  - destruct Hv as [Hp Hs]. subst p'. cbn [ep_process]. apply simple_planner_variant. exact Hs.
+  - apply ep_variant_complex in Hv. destruct Hv as [Hp [Hf Ho]]. subst p' fn'. rewrite !ep_process_unfold.
+    assert (H : res_rel sels_same (ep_process_ops c n ops) (ep_process_ops c n ops')).
+    { revert ops' Ho. induction ops as [|x r IH]; intros [|x' r'] Ho; cbn in Ho; try contradiction; [constructor|].
+      destruct Ho as [Hx Hr]. cbn [ep_process_ops]. fold (ep_process_ops c n).
+      pose proof (ep_process_variant c n x x' Hx) as Hy.
+      destruct (ep_process c n x) as [y| |]; destruct (ep_process c n x') as [y'| |]; cbn [res_rel bind] in *; try contradiction; try assumption; try exact I.
+      specialize (IH r' Hr).
+      destruct (ep_process_ops c n r) as [ys| |]; destruct (ep_process_ops c n r') as [ys'| |]; cbn [res_rel bind] in *; try contradiction; try assumption; try exact I.
+      constructor; [|exact IH]. cbn [fst snd]. split; [apply nested_prefix_variant; exact Hx|exact Hy]. }
+    destruct (ep_process_ops c n ops) as [l| |]; destruct (ep_process_ops c n ops') as [l'| |]; cbn [res_rel bind] in *; try contradiction; try assumption; try exact I.
+    destruct fn; cbn [res_rel]; try exact I; apply complex_select_same; exact H.
+Qed.
+
+Definition ep_check_ops : list ep -> result unit :=
+  fix go (l : list ep) : result unit := match l with [] => Ok tt | x :: r => do _ <- ep_check x; go r end.
+Lemma ep_check_unfold p fn ops : ep_check (EPComplex p fn ops) = ep_check_ops ops.
+Proof. reflexivity. Qed.
+
+Fixpoint ep_check_variant (t : ep) : forall t', ep_variant t t' -> ep_check t = ep_check t'.
+Proof.
+  destruct t as [s p|p fn ops]; intros [s' p'|p' fn' ops'] Hv; try contradiction.
+  - destruct Hv as [_ Hs]. cbn [ep_check]. apply check_variant. exact Hs.
+  - apply ep_variant_complex in Hv. destruct Hv as [_ [_ Ho]]. rewrite !ep_check_unfold.
+    revert ops' Ho. induction ops as [|x r IH]; intros [|x' r'] Ho; cbn in Ho; try contradiction; [reflexivity|].
+    destruct Ho as [Hx Hr]. cbn [ep_check_ops]. fold ep_check_ops. rewrite (ep_check_variant x x' Hx), (IH r' Hr). reflexivity.
+Qed.
+
+Lemma plan_index_variant q q' c n : script_variant q q' -> res_rel ssame (plan_index q c n) (plan_index q' c n).
+Proof.
+  intro Hv. unfold plan_index.
+  assert (Ht : match sc_tail q, sc_tail q' with None, None => True | Some _, Some _ => True | _, _ => False end).
+  { destruct q as [h ao tl]; destruct q' as [h' ao' tl']. destruct Hv as [_ [_ Htl]]. cbn [sc_tail]. destruct tl, tl'; try contradiction; exact I. }
+  destruct (sc_tail q) as [tq|]; destruct (sc_tail q') as [tq'|]; try contradiction.
+  - pose proof (plan_complex_variant q q' None None 0%Z None Hv I) as Hp.
+    destruct (plan_complex None 0 None q) as [[r cn]|]; destruct (plan_complex None 0 None q') as [[r' cn']|]; try contradiction; [|exact I].
+    destruct Hp as [Hr _]. destruct r as [t|]; destruct r' as [t'|]; try contradiction; [|exact I].
+    cbn [opt_ep_variant] in Hr. rewrite (ep_check_variant t t' Hr).
+    destruct (ep_check t'); cbn [bind res_rel]; try reflexivity.
+    pose proof (ep_process_variant c n t t' Hr) as Hs.
+    destruct (ep_process c n t) as [s| |]; destruct (ep_process c n t') as [s'| |]; cbn [res_rel bind] in *; try contradiction; try assumption; try exact I.
+    apply E_index_limit. exact Hs.
+  - pose proof (simple_planner_variant c q q' "" n Hv) as Hs.
+    destruct (simple_planner c q "" n) as [s| |]; destruct (simple_planner c q' "" n) as [s'| |]; cbn [res_rel bind] in *; try contradiction; try assumption; try exact I.
+    apply E_index_limit. exact Hs.
+Qed.
+
+Lemma plan_search_variant q q' c n : script_variant q q' -> res_rel ssame (plan_search q c n) (plan_search q' c n).
+Proof.
+  intro Hv. unfold plan_search. pose proof (plan_index_variant q q' c n Hv) as Hs.
+  destruct (plan_index q c n) as [s| |]; destruct (plan_index q' c n) as [s'| |]; cbn [res_rel bind] in *; try contradiction; try assumption; try exact I.
+  apply E_index_limit, E_traces_data. exact Hs.
+Qed.
+
+(* the search entry point (clickhouse_transpiler.Plan) for a request with ANY number of selectors joined by && and || *)
+Lemma traceql_search_value_independent q q' c n : script_variant q q' ->
+  match plan q MSearch c n, plan q' MSearch c n with
+  | Ok s, Ok s' =>
+      pok QN (tq_pieces s) = true ->
+      pok QN (tq_pieces s') = true /\ shape (tq_pieces s') = shape (tq_pieces s) /\
+      skeleton (lex (TqSql.render s')) = skeleton (lex (TqSql.render s)) /\
+      lex (TqSql.render s') = etoks QN (tq_pieces s') /\
+      List.length (rvalues (tq_pieces s')) = List.length (rvalues (tq_pieces s))
+  | Err e, Err e' => e = e'
+  | Panic, Panic => True
+  | _, _ => False
+  end.
+Proof.
+  intro Hv. cbn [plan]. pose proof (plan_search_variant q q' c n Hv) as H.
+  destruct (plan_search q c n) as [s| |]; destruct (plan_search q' c n) as [s'| |]; cbn [res_rel] in H; try contradiction; try assumption; try exact I.
+  intro Hok. exact (tq_erased_equal_same_structure s s' H Hok).
+Qed.
+
+(* ---------- the term analysis (analyzeCond) of two selectors written with the same shape ---------- *)
+(* phi translates the text of a term of the first selector (its de-duplication key) into the text of the corresponding term of the second *)
+Fixpoint exp_variant (phi : string -> string) (e e' : attr_exp) : Prop :=
+  match e, e' with
+  | AExp h ao tl, AExp h' ao' tl' =>
+    ao = ao' /\
+    match h, h' with
+    | HTerm t, HTerm t' => term_variant t t' /\ attr_sel_string t' = phi (attr_sel_string t)
+    | HParen x, HParen x' => exp_variant phi x x'
+    | _, _ => False
+    end /\
+    match tl, tl' with None, None => True | Some a, Some a' => exp_variant phi a a' | _, _ => False end
+  end.
+
+Fixpoint exp_keys (e : attr_exp) : list string :=
+  match e with
+  | AExp h _ tl =>
+    (match h with HTerm t => [attr_sel_string t] | HParen x => exp_keys x end) ++
+    match tl with Some a => exp_keys a | None => [] end
+  end.
+
+Definition inj_on (phi : string -> string) (S : list string) : Prop :=
+  forall a b, In a S -> In b S -> phi a = phi b -> a = b.
+
+Definition state_rel (phi : string -> string) (st st' : an_state) : Prop :=
+  Forall2 term_variant (fst st) (fst st') /\ snd st' = map (fun p => (phi (fst p), snd p)) (snd st).
+
+Lemma find_key_map phi S k l : inj_on phi S -> In k S -> (forall p, In p l -> In (fst p) S) ->
+  find_key (phi k) (map (fun p : string * nat => (phi (fst p), snd p)) l) = find_key k l.
+Proof.
+  intros Hi Hk. induction l as [|[k' i] l IH]; intro Hl; [reflexivity|].
+  cbn [map find_key fst snd].
+  assert (Hk' : In k' S) by (apply (Hl (k', i)); left; reflexivity).
+  destruct (String.eqb_spec k k') as [E|N].
+  - subst k'. rewrite String.eqb_refl. reflexivity.
+  - destruct (String.eqb_spec (phi k) (phi k')) as [E'|N']; [exfalso; apply N; apply Hi; assumption|].
+    apply IH. intros p Hp. apply Hl. right. exact Hp.
+Qed.
+
+Lemma analyze_cond_unfold h ao tl st :
+  analyze_cond (AExp h ao tl) st =
+  let '(res, st1) :=
+    match h with
+    | HParen e' => analyze_cond e' st
+    | HTerm t =>
+        let key := attr_sel_string t in
+        match find_key key (snd st) with
+        | Some i => (CTerm i, st)
+        | None => let i := List.length (fst st) in (CTerm i, ((fst st ++ [t])%list, (key, i) :: snd st))
+        end
+    end in
+  match tl with
+  | Some t' => let '(r2, st2) := analyze_cond t' st1 in (CBin ao res r2, st2)
+  | None => (res, st1)
+  end.
+Proof. reflexivity. Qed.
+
+Definition keys_in (S : list string) (st : an_state) : Prop := forall p, In p (snd st) -> In (fst p) S.
+
+Fixpoint analyze_cond_variant (phi : string -> string) (S : list string) (e : attr_exp) : forall e' st st',
+  exp_variant phi e e' -> inj_on phi S -> incl (exp_keys e) S -> keys_in S st -> state_rel phi st st' ->
+  fst (analyze_cond e st) = fst (analyze_cond e' st') /\
+  state_rel phi (snd (analyze_cond e st)) (snd (analyze_cond e' st')) /\ keys_in S (snd (analyze_cond e st)).
+Proof.
+  destruct e as [h ao tl]. intros [h' ao' tl'] st st' Hv Hi Hk Hs Hr.
+  destruct Hv as [Hao [Hh Htl]]. subst ao'. rewrite !analyze_cond_unfold.
+  cbn [exp_keys] in Hk.
+  assert (Hk1 : incl (match h with HTerm t => [attr_sel_string t] | HParen x => exp_keys x end) S) by (intros x Hx; apply Hk; apply in_or_app; left; exact Hx).
+  assert (Hk2 : incl (match tl with Some a => exp_keys a | None => [] end) S) by (intros x Hx; apply Hk; apply in_or_app; right; exact Hx).
+  (* the head *)
+  assert (Hhead : forall r1 r1',
+     r1 = (match h with
+           | HParen e' => analyze_cond e' st
+           | HTerm t => match find_key (attr_sel_string t) (snd st) with
+                        | Some i => (CTerm i, st)
+                        | None => (CTerm (List.length (fst st)), ((fst st ++ [t])%list, (attr_sel_string t, List.length (fst st)) :: snd st))
+                        end end) ->
+     r1' = (match h' with
+            | HParen e' => analyze_cond e' st'
+            | HTerm t => match find_key (attr_sel_string t) (snd st') with
+                         | Some i => (CTerm i, st')
+                         | None => (CTerm (List.length (fst st')), ((fst st' ++ [t])%list, (attr_sel_string t, List.length (fst st')) :: snd st'))
+                         end end) ->
+     fst r1 = fst r1' /\ state_rel phi (snd r1) (snd r1') /\ keys_in S (snd r1)).
+  { intros r1 r1' E1 E1'. subst r1 r1'.
+    destruct h as [t|x]; destruct h' as [t'|x']; try contradiction.
+    - destruct Hh as [Ht Hkey]. destruct Hr as [Hf Hm]. rewrite Hkey, Hm.
+      rewrite (find_key_map phi S (attr_sel_string t) (snd st) Hi (Hk1 _ (or_introl eq_refl)) Hs).
+      destruct (find_key (attr_sel_string t) (snd st)) as [i|].
+      + cbn [fst snd]. split; [reflexivity|]. split; [split; assumption|exact Hs].
+      + cbn [fst snd]. rewrite (Forall2_len _ _ _ Hf). split; [reflexivity|]. split.
+        * split; cbn [fst snd]; [apply Forall2_app; [exact Hf|constructor; [exact Ht|constructor]]|]. cbn [map fst snd]. rewrite <- Hm. reflexivity.
+        * intros p [Hp|Hp]; [subst p; cbn [fst]; apply Hk1; left; reflexivity|apply Hs; exact Hp].
+    - apply (analyze_cond_variant phi S x x' st st' Hh Hi Hk1 Hs Hr). }
+  specialize (Hhead _ _ eq_refl eq_refl).
+  destruct (match h with HParen e' => analyze_cond e' st | HTerm t => _ end) as [res st1].
+  destruct (match h' with HParen e' => analyze_cond e' st' | HTerm t => _ end) as [res' st1'].
+  cbn [fst snd] in Hhead. destruct Hhead as [Hres [Hr1 Hs1]]. subst res'.
+  destruct tl as [a|]; destruct tl' as [a'|]; try contradiction.
+  - pose proof (analyze_cond_variant phi S a a' st1 st1' Htl Hi Hk2 Hs1 Hr1) as H2.
+    destruct (analyze_cond a st1) as [r2 st2]. destruct (analyze_cond a' st1') as [r2' st2']. cbn [fst snd] in *.
+    destruct H2 as [E2 [Hr2 Hs2]]. subst r2'. split; [reflexivity|]. split; assumption.
+  - cbn [fst snd]. split; [reflexivity|]. split; assumption.
+Qed.
+
+(* two selectors written with the same shape, whose terms correspond under an injective translation of the term texts, are variants *)
+Lemma selector_variant_of_shape phi h h' e e' :
+  sel_attr h = Some e -> sel_attr h' = Some e' -> exp_variant phi e e' -> inj_on phi (exp_keys e) -> sel_agg h = sel_agg h' ->
+  selector_variant h h'.
+Proof.
+  intros He He' Hv Hi Hg. unfold selector_variant, analyze. rewrite He, He'.
+  assert (H0 : state_rel phi ([], []) ([], [])) by (split; [constructor|reflexivity]).
+  assert (Hk0 : keys_in (exp_keys e) ([], [])) by (intros p []).
+  pose proof (analyze_cond_variant phi (exp_keys e) e e' ([], []) ([], []) Hv Hi (incl_refl _) Hk0 H0) as H.
+  destruct (analyze_cond e ([], [])) as [c st]. destruct (analyze_cond e' ([], [])) as [c' st']. cbn [fst snd] in *.
+  destruct H as [Hc [[Hf _] _]]. split; [now rewrite Hc|]. split; [exact Hf|exact Hg].
+Qed.
+
+(* hence, purely in terms of how the two requests are written (one selector; search, tags or values) *)
+Lemma traceql_same_shape_requests phi c e e' ag ao ao' m m' n :
+  exp_variant phi e e' -> inj_on phi (exp_keys e) -> mode_variant m m' ->
+  match plan (Script {| sel_attr := Some e; sel_agg := ag |} ao None) m c n,
+        plan (Script {| sel_attr := Some e'; sel_agg := ag |} ao' None) m' c n with
+  | Ok s, Ok s' =>
+      pok QN (tq_pieces s) = true ->
+      pok QN (tq_pieces s') = true /\ shape (tq_pieces s') = shape (tq_pieces s) /\
+      skeleton (lex (TqSql.render s')) = skeleton (lex (TqSql.render s)) /\
+      lex (TqSql.render s') = etoks QN (tq_pieces s') /\
+      List.length (rvalues (tq_pieces s')) = List.length (rvalues (tq_pieces s))
+  | Err x, Err x' => x = x'
+  | Panic, Panic => True
+  | _, _ => False
+  end.
+Proof.
+  intros Hv Hi Hm. apply traceql_planner_value_independent; [|exact Hm].
+  exact (selector_variant_of_shape phi {| sel_attr := Some e; sel_agg := ag |} {| sel_attr := Some e'; sel_agg := ag |} e e' eq_refl eq_refl Hv Hi eq_refl).
+Qed.
